@@ -662,6 +662,7 @@ class Explorer:
 
     def __init__(self, query_timeout_ms=20000):
         self.solver = z3.Solver()
+        self.qtimeout = query_timeout_ms
         self.solver.set("timeout", query_timeout_ms)
         self.stats = Stats()
         self.reset_path([])
@@ -718,6 +719,15 @@ class Explorer:
     def _check(self, *extra):
         t0 = time.perf_counter()
         r = self.solver.check(*extra)
+        if r == z3.unknown and not getattr(self, "_retrying", False):
+            # one retry with four times the budget (a busy machine makes wall-clock timeouts flaky)
+            self._retrying = True
+            try:
+                self.solver.set("timeout", 4 * self.qtimeout)
+                r = self.solver.check(*extra)
+            finally:
+                self.solver.set("timeout", self.qtimeout)
+                self._retrying = False
         self.stats.solver_s += time.perf_counter() - t0
         if r == z3.sat:
             self.stats.q_sat += 1
